@@ -331,6 +331,9 @@ pub fn avx2_strategy() -> BoxedStrategy<Req> {
     prop_oneof![
         2 => any32().prop_map(|x| Req::new("v2.id", vec![x])),
         2 => four_bytes().prop_map(|x| Req::new("v2.id", vec![x])),
+        // new() / splat() from serial field elements in raw, unreduced limb form (limbs up to 2^54)
+        4 => vec(operand(), 4).prop_map(|v| Req::new("v2.new", v)),
+        1 => operand().prop_map(|x| Req::new("v2.splat_raw", vec![x])),
         1 => u256_interesting().prop_map(|x| Req::new("v2.splat", vec![x.to_vec()])),
         2 => (any32(), 0u8..10).prop_map(|(x, c)| Req::new("v2.shuffle", vec![x, vec![c]])),
         2 => (any32(), any32(), 0u8..8).prop_map(|(x, y, c)| Req::new("v2.blend", vec![x, y, vec![c]])),
@@ -356,6 +359,7 @@ pub fn ifma_strategy() -> BoxedStrategy<Req> {
     prop_oneof![
         2 => anyu().prop_map(|x| Req::new("vi.id", vec![x])),
         1 => four_bytes().prop_map(|x| Req::new("vi.id", vec![x])),
+        3 => vec(operand(), 4).prop_map(|v| Req::new("vi.new", v)),
         4 => anyu().prop_map(|x| Req::new("vi.reduce", vec![x])),
         3 => neg_dom().prop_map(|x| Req::new("vi.diff_sum", vec![x])),
         3 => neg_dom().prop_map(|x| Req::new("vi.negate_lazy", vec![x])),
@@ -379,6 +383,14 @@ pub fn classify_vec(req: &Req, _resp: &Resp) -> Vec<&'static str> {
     let mut bytes = false;
     let mut big = false;
     for x in &req.a {
+        if x.len() == 40 && (req.op.ends_with(".new") || req.op.ends_with("splat_raw")) {
+            for c in x.chunks(8) {
+                let v = u64::from_le_bytes(c.try_into().unwrap());
+                if v >= 1 << 51 { over = true; }
+                if v >= 3 << 51 { big = true; }
+                if v == (1 << 51) - 1 { ones = true; }
+            }
+        }
         if x.len() == 160 {
             let (n, lb) = if ifma { (5, 8) } else { (10, 4) };
             for i in 0..4 {
@@ -411,7 +423,7 @@ pub fn classify_vec(req: &Req, _resp: &Resp) -> Vec<&'static str> {
     l
 }
 
-pub const RULE_VEC: &str = "4-lane vector field types through the guarded hook: raw lanes respecting each method's documented precondition (AVX2: negate_lazy b<0.999, diff_sum b<0.01, square_and_negate_D b<1.5, Neg b<4.0, Mul lhs b<2.5 / rhs b<1.75, others any u32; IFMA: Reduced limbs < 2^52, negate_lazy/diff_sum limbs below the 16p limbs, others any u64), incl. every limb of every lane at the bound; result lanes are evaluated by the model (sum limb*2^shift mod p) and split().as_bytes() compared with lane-wise integer arithmetic; non-trivial = some limb >= its nominal size, an all-ones limb, or operands built through new() from special byte strings";
+pub const RULE_VEC: &str = "4-lane vector field types through the guarded hook: raw lanes respecting each method's documented precondition, and new()/splat() from serial field elements given as raw unreduced limbs (AVX2: negate_lazy b<0.999, diff_sum b<0.01, square_and_negate_D b<1.5, Neg b<4.0, Mul lhs b<2.5 / rhs b<1.75, others any u32; IFMA: Reduced limbs < 2^52, negate_lazy/diff_sum limbs below the 16p limbs, others any u64), incl. every limb of every lane at the bound; result lanes are evaluated by the model (sum limb*2^shift mod p) and split().as_bytes() compared with lane-wise integer arithmetic; non-trivial = some limb >= its nominal size, an all-ones limb, or operands built through new() from special byte strings";
 
 pub fn vector_checks(tier: Tier) -> Vec<Check> {
     let mut v = vec![];
